@@ -126,7 +126,14 @@ func genVar(r *rand.Rand) c08In {
 		a := []declT{d}
 		var b []declT
 		use := func(ref val) declT { return declT{Name: d.Name, V: splice(d.V, i, j, ref), Important: d.Important} }
-		switch k := r.Intn(20); {
+		switch k := r.Intn(26); {
+		case k >= 20: // empty fallback: var(--x,) / var(--x, ) is replaced by nothing (Variables 1 §3: "var(--a,)" is valid, the fallback is an empty token sequence)
+			var ok bool
+			b, in.PB, in.Note, ok = genEmptyFallback(r, d, name, i, j, T)
+			if !ok {
+				continue
+			}
+			in.PA = in.PB
 		case k < 9: // own custom property
 			b = []declT{{Name: name, V: T}, use(varRef(name, nil))}
 			in.Note = "own"
@@ -169,10 +176,89 @@ func genVar(r *rand.Rand) c08In {
 			b[0], b[len(b)-1] = b[len(b)-1], b[0]
 		}
 		in.A, in.B = blockText(a), blockText(b)
-		if r.Intn(4) == 0 { // var() forms are themselves respellable
+		if r.Intn(4) == 0 || (strings.HasPrefix(in.Note, "empty-fallback") && r.Intn(2) == 0) { // var() forms are themselves respellable
 			in.B, _ = blockVal(b).variant(r, allowVarCase, true)
 		}
 		return in
+	}
+}
+
+// insertAt returns v with ref inserted before piece p (p == len(v): appended), at a token boundary.
+func insertAt(v val, p int, ref val) (val, bool) {
+	if p < 0 || p > len(v) || len(v) == 0 {
+		return nil, false
+	}
+	if p > 0 && p < len(v) && v[p].Sep == sGlue {
+		return nil, false
+	}
+	if p < len(v) && (v.depthAt(p) > varDepthMax || v.atomicInside(p)) {
+		return nil, false
+	}
+	out := v[:p].clone()
+	sep := byte(sGlue)
+	if p > 0 {
+		sep = sOpt
+		if wordLike(v[p-1].K) || (p < len(v) && v[p].Sep == sReq) {
+			sep = sReq
+		}
+	}
+	out = append(out, withSep(ref, sep)...)
+	if p < len(v) {
+		rest := v[p:].clone()
+		if p == 0 {
+			rest[0].Sep = sOpt
+		}
+		out = append(out, rest...)
+	}
+	return out, true
+}
+
+// genEmptyFallback builds the B side of a case whose value holds a var() with an EMPTY fallback.
+// When the custom property is missing or invalid at computed-value time the reference is replaced by
+// nothing and the rest of the value keeps its meaning (reference A: the plain declaration d).
+func genEmptyFallback(r *rand.Rand, d declT, name string, i, j int, T val) (b []declT, parent string, note string, ok bool) {
+	empty := val{}
+	ins := func() (declT, bool) {
+		for try := 0; try < 20; try++ {
+			if v, ok := insertAt(d.V, r.Intn(len(d.V)+1), varRef(name, empty)); ok {
+				return declT{Name: d.Name, V: v, Important: d.Important}, true
+			}
+		}
+		return declT{}, false
+	}
+	switch k := r.Intn(10); {
+	case k < 4: // undefined custom property
+		u, ok := ins()
+		if !ok {
+			return nil, "", "", false
+		}
+		return []declT{u}, "", "empty-fallback-undefined", true
+	case k < 6: // custom property invalid at computed-value time (references a missing one) on the element
+		u, ok := ins()
+		if !ok {
+			return nil, "", "", false
+		}
+		return []declT{{Name: name, V: varRef("--zz", nil)}, u}, "", "empty-fallback-invalid-own", true
+	case k < 7: // the same, inherited
+		u, ok := ins()
+		if !ok {
+			return nil, "", "", false
+		}
+		return []declT{u}, blockText([]declT{{Name: name, V: varRef("--zz", nil)}}), "empty-fallback-invalid-inherited", true
+	case k < 8: // two empty references
+		u, ok := ins()
+		if !ok {
+			return nil, "", "", false
+		}
+		v2, ok := insertAt(u.V, len(u.V), varRef("--zz", empty))
+		if !ok {
+			return nil, "", "", false
+		}
+		u.V = v2
+		return []declT{u}, "", "empty-fallback-twice", true
+	default: // the fallback is empty but not used: the custom property is defined
+		u := declT{Name: d.Name, V: splice(d.V, i, j, varRef(name, empty)), Important: d.Important}
+		return []declT{{Name: name, V: T}, u}, "", "empty-fallback-unused", true
 	}
 }
 
@@ -396,6 +482,9 @@ func genVarCycle(r *rand.Rand) c08In {
 	var pre val
 	if r.Intn(3) == 0 {
 		pre = item(r)
+	}
+	if pre != nil && fb != nil && r.Intn(3) == 0 {
+		fb = val{} // empty fallback: `pre var(--used,)` is `pre` when --used is invalid
 	}
 	var final val
 	valid := true
